@@ -44,26 +44,46 @@ Lemma has_key_app_l k a b : has_key k a = true -> has_key k (a ++ b) = true.
 Proof. unfold has_key. induction a as [|[x w] r IH]; cbn [dget app]; [discriminate|]. destruct (seqb x k); [reflexivity|exact IH]. Qed.
 Lemma has_key_app_r k a b : has_key k b = true -> has_key k (a ++ b) = true.
 Proof. unfold has_key. induction a as [|[x w] r IH]; cbn [dget app]; [exact (fun H => H)|]. destruct (seqb x k); [reflexivity|exact IH]. Qed.
-Definition ns_step (acc : dict) (tok : str) : dict :=
-  match split_on 61%N tok with
-  | [k; v] => if (match k with [] => false | _ => true end) && negb (has_key (s_xmlns_colon ++ k) NSMAP)
-              then dset (s_xmlns_colon ++ k) (strip_quotes v) acc else acc
-  | _ => acc end.
 Lemma ns_step_keeps acc tok key : has_key key acc = true -> has_key key (ns_step acc tok) = true.
 Proof.
-  intro H. unfold ns_step. destruct (split_on 61%N tok) as [|k [|v [|? ?]]]; try exact H.
-  destruct (_ && _); [apply has_key_dset; exact H|exact H].
+  intro H. unfold ns_step. destruct (ns_entry tok) as [[k v]|]; [|exact H].
+  destruct (negb _); [apply has_key_dset; exact H|exact H].
 Qed.
 Lemma fold_keeps toks : forall acc key, has_key key acc = true -> has_key key (fold_left ns_step toks acc) = true.
 Proof. induction toks as [|t r IH]; intros acc key H; [exact H|]. cbn [fold_left]. apply IH, ns_step_keeps, H. Qed.
 Theorem setting_entry_declared root ns tok k v :
-  field root s_namespaces = Some ns -> In tok (py_split_ws ns) -> split_on 61%N tok = [k; v] -> k <> [] ->
+  field root s_namespaces = Some ns -> In tok (py_split_ws ns) -> ns_entry tok = Some (k, v) ->
   has_key (s_xmlns_colon ++ k) (nsmap_of root) = true.
 Proof.
-  intros Hf Hin Hs Hk. unfold nsmap_of. rewrite Hf.
+  intros Hf Hin Hs. unfold nsmap_of. rewrite Hf.
   destruct (has_key (s_xmlns_colon ++ k) NSMAP) eqn:Estd; [apply has_key_app_l; exact Estd|].
-  apply has_key_app_r. unfold ns_decls. change (fun acc tok0 => _) with ns_step.
+  apply has_key_app_r. unfold ns_decls.
   generalize (@nil (str * str)) as acc. induction (py_split_ws ns) as [|t r IH]; [destruct Hin|]. intro acc. cbn [fold_left].
   destruct Hin as [->|Hin]; [|apply IH; exact Hin].
-  apply fold_keeps. unfold ns_step. rewrite Hs, Estd. destruct k; [congruence|]. cbn [andb negb]. apply has_key_dset_same.
+  apply fold_keeps. unfold ns_step. rewrite Hs, Estd. cbn [negb]. apply has_key_dset_same.
+Qed.
+(* what an entry is: prefix, "=", URI; the prefix is everything before the FIRST "=", so a URI with a query string is kept whole *)
+Theorem ns_entry_shape k v : k <> [] -> nochar 61%N k = true -> ns_entry (k ++ 61%N :: v) = Some (k, v).
+Proof.
+  intros Hk Hn. unfold ns_entry.
+  rewrite (span_app (fun c => negb (ceq c 61%N)) k (61%N :: v)); [|exact Hn|reflexivity].
+  destruct k; [congruence|reflexivity].
+Qed.
+Lemma span_inv p : forall s a r, span p s = (a, r) -> s = a ++ r /\ forallb p a = true /\ starts_not p r.
+Proof.
+  induction s as [|c s IH]; intros a r H; cbn [span] in H.
+  - injection H as <- <-. repeat split.
+  - destruct (p c) eqn:Ec.
+    + destruct (span p s) as [a' b'] eqn:E. injection H as <- <-. destruct (IH a' b' eq_refl) as [H1 [H2 H3]].
+      split; [cbn [app]; f_equal; exact H1|]. split; [cbn [forallb]; rewrite Ec; exact H2|exact H3].
+    + injection H as <- <-. split; [reflexivity|]. split; [reflexivity|exact Ec].
+Qed.
+Theorem ns_entry_inv tok k v : ns_entry tok = Some (k, v) -> tok = k ++ 61%N :: v /\ k <> [] /\ nochar 61%N k = true.
+Proof.
+  unfold ns_entry. destruct (span (fun c => negb (ceq c 61%N)) tok) as [a r] eqn:E.
+  destruct r as [|c r]; [discriminate|]. destruct a as [|a0 a]; [discriminate|]. intro H. injection H as <- <-.
+  destruct (span_inv _ _ _ _ E) as [H1 [H2 H3]].
+  split; [|split; [discriminate|exact H2]].
+  rewrite H1. f_equal. f_equal. cbn [starts_not] in H3. apply negb_false_iff in H3.
+  destruct (ceq_spec c 61%N) as [->|]; [reflexivity|discriminate].
 Qed.
